@@ -9,7 +9,7 @@ use std::collections::hash_map::DefaultHasher;
 use std::collections::{HashMap, HashSet};
 use std::hash::{Hash, Hasher};
 
-fn h<T: Hash>(t: &T) -> u64 {
+fn h<T: Hash + ?Sized>(t: &T) -> u64 {
     let mut s = DefaultHasher::new();
     t.hash(&mut s);
     s.finish()
@@ -59,6 +59,13 @@ pub fn value_case(c: i128, s: u8, l: &mut Local) {
                 }
                 if n != want.0 { l.violation(format!("numerator | {}{}{} | differs from as_integer_ratio", rep, sc, neg), || (format!("({},{}).numerator() = {}, expected {}", a, f, n, want.0), mk())); }
                 if dn != want.1 { l.violation(format!("denominator | {}{}{} | differs from as_integer_ratio", rep, sc, neg), || (format!("({},{}).denominator() = {}, expected {}", a, f, dn, want.1), mk())); }
+                // Decimals hashed as ELEMENTS of a slice / array / Vec go through Hash::hash_slice, which a type may
+                // override: equal values must hash identically there too, and identically to their (n, d) pairs
+                l.evals += 1;
+                match catch(|| (h(&[d, d][..]), h(&vec![d]), h(&[want, want][..]), h(&vec![want]))) {
+                    Ok((hs, hv, ws, wv)) => if hs != ws || hv != wv { l.violation(format!("Hash (as slice / Vec element, hash_slice) | {}{}{} | differs from the hash of the (numerator, denominator) pairs", rep, sc, neg), || (format!("hash([d, d]) = {:#x} vs {:#x}; hash(vec![d]) = {:#x} vs {:#x} for d = ({},{})", hs, ws, hv, wv, a, f), mk())); },
+                    Err(()) => l.violation(format!("Hash (as slice / Vec element, hash_slice) | {}{}{} | panicked", rep, sc, neg), || (format!("({},{})", a, f), mk())),
+                }
                 if hd != want_hash { l.violation(format!("Hash | {}{}{} | differs from the hash of (numerator, denominator)", rep, sc, neg), || (format!("hash(({},{})) = {:#x}, hash({:?}) = {:#x}", a, f, hd, want, want_hash), mk())); }
             }
         }
